@@ -40,6 +40,7 @@ class Checker:
         self.paths_enumerated = 0
         self.notes: List[str] = []
         self.rules_text: Dict[str, str] = {}
+        self.analysis_errors: List[str] = []
 
     @property
     def cg(self):
@@ -58,6 +59,16 @@ class Checker:
         self.obs.append(Ob(rule, key, "ok" if ok else "violation", msg, where))
         return ok
 
+    def run(self, fn, *args, **kw):
+        """Run one rule group; an anchor that vanished / an idiom the group does not understand is
+        recorded and the other groups still run.  If no group reports a violation the run fails
+        closed (exit 2); if one does, the violation is reported and the skipped groups are listed."""
+        try:
+            return fn(*args, **kw)
+        except AnalysisError as e:
+            self.analysis_errors.append(str(e))
+            return None
+
     def note(self, rule: str, key: str, msg: str, where: str = ""):
         self.obs.append(Ob(rule, key, "note", msg, where))
 
@@ -75,7 +86,7 @@ class Checker:
         return sum(1 for o in self.obs if o.rule == rule and o.verdict != "note")
 
     def check_expected(self):
-        if any(o.verdict == "violation" for o in self.obs):
+        if any(o.verdict == "violation" for o in self.obs) or self.analysis_errors:
             # a violation is being reported anyway; a broken construct may legitimately hide
             # the dependent instances of its rule
             return
@@ -126,13 +137,16 @@ def finish(ck: Checker, t0: float, seed: int, selfval: Optional[dict] = None, re
     ck.check_expected()
     seen_known, new = split_known(ck)
     os.makedirs(os.path.join(EVIDENCE_DIR, "replay"), exist_ok=True)
+    for e in ck.analysis_errors:
+        print("ANALYSIS-NOTE property=%s a rule group could not run on this tree (%s); the violations below come from the groups that could" % (ck.prop, e))
     for (v, k) in seen_known:
         print("KNOWN-FINDING: property=%s %s %s -- %s" % (ck.prop, v.rule, v.key, k.get("what", v.msg)))
     replay_paths = []
     for i, v in enumerate(new):
         path = os.path.join(EVIDENCE_DIR, "replay", "%s-%d.json" % (ck.prop, i))
-        with open(path, "w") as f:
-            json.dump({"property": ck.prop, "rule": v.rule, "key": v.key, "msg": v.msg, "where": v.where}, f, indent=1)
+        if replay != "no-evidence":
+            with open(path, "w") as f:
+                json.dump({"property": ck.prop, "rule": v.rule, "key": v.key, "msg": v.msg, "where": v.where}, f, indent=1)
         replay_paths.append(path)
         print("%s %s %s :: %s" % (v.where or "?", v.rule, v.key, v.msg))
         print("VIOLATION property=%s replay=%s" % (ck.prop, path))
@@ -170,6 +184,7 @@ def finish(ck: Checker, t0: float, seed: int, selfval: Optional[dict] = None, re
         "samples": samples[:40],
         "notes": notes,
         "cfg_exception_mode": ck.exc_mode,
+        "rule_groups_not_run": list(ck.analysis_errors),
     }
     if cgs is not None:
         cov["call_sites_total"] = cgs["total"]
